@@ -58,6 +58,10 @@ pub fn is_rexmit(b: &[u8]) -> bool {
 pub struct TruthLink {
     /// A REG3 was delivered on this link since its last reset.
     pub registered: bool,
+    /// Has the link ever completed registration (survives resets)?
+    pub ever_registered: bool,
+    /// A sender-side reset (tear-down) happened after the link's last completed registration.
+    pub reset_since_registered: bool,
     /// When the link was last heard (any >= 2-byte datagram that is not a
     /// REG2 / REG_NGP / REG_ERR reply; a REG3 counts).
     pub heard_at: Option<u64>,
@@ -72,6 +76,8 @@ impl Default for TruthLink {
     fn default() -> Self {
         TruthLink {
             registered: false,
+            ever_registered: false,
+            reset_since_registered: false,
             heard_at: None,
             applied_timeout: 5000,
             fd: None,
@@ -121,6 +127,30 @@ impl Truth {
             .collect();
         // Tear-downs in the arm's main action.
         self.note_teardowns(ctx.pre, ctx.mid, ctx.idx);
+        // A failed threshold / probe flush in the client arm marks the link for recovery; on a link
+        // that is already disconnected none of the observed fields moves, but its accounting is
+        // reset all the same (the timer flush of the flush arm does not reset anything).
+        if matches!(ctx.kind, StepKind::Client(_)) {
+            for w in &ctx.wire[..ctx.wire_mid] {
+                if w.call == srtla_send::net::verif_hooks::UplinkCall::SendBatch
+                    && w.injected_fault
+                    && !matches!(w.result, Ok(n) if n > 0)
+                    && let Some(v) = ctx.pre.iter().find(|v| v.fd == Some(w.fd))
+                {
+                    let e = self.links.entry(v.conn_id).or_default();
+                    if e.ever_registered {
+                        e.reset_since_registered = true;
+                    }
+                    e.registered = false;
+                    e.heard_at = None;
+                    if !self.torn_down_now.contains(&v.conn_id) {
+                        e.resets += 1;
+                        e.last_reset_step = ctx.idx;
+                        self.torn_down_now.push(v.conn_id);
+                    }
+                }
+            }
+        }
         // Deliveries, in order.
         for (conn_id, b) in ctx.uplink {
             if ctx.post.iter().all(|v| v.conn_id != *conn_id) && ctx.mid.iter().all(|v| v.conn_id != *conn_id) {
@@ -131,6 +161,8 @@ impl Truth {
             match t {
                 T_REG3 => {
                     e.registered = true;
+                    e.reset_since_registered = false;
+                    e.ever_registered = true;
                     e.heard_at = Some(ctx.now);
                 }
                 T_REG_ERR => {
@@ -167,6 +199,9 @@ impl Truth {
                 let e = self.links.entry(va.conn_id).or_default();
                 // A REG_ERR delivery also makes `connected` fall; it is handled in order above.
                 if socket_replaced || reattempt || fell {
+                    if e.ever_registered {
+                        e.reset_since_registered = true;
+                    }
                     e.registered = false;
                     e.heard_at = None;
                     e.resets += 1;
